@@ -1,1 +1,544 @@
-//! Crash images: sparse-aware directory copies, stop points (see DESIGN 3.3).
+//! Crash images: sparse-aware directory copies, logical observations, stop points and the
+//! prefix-recovery oracle (DESIGN 3.2, 3.3).
+
+use crate::{interp::*, model::*, spec::*};
+use serde::{Deserialize, Serialize};
+use std::{
+	collections::{BTreeMap, BTreeSet},
+	fs::File,
+	io,
+	os::unix::{fs::FileExt, io::AsRawFd},
+	path::Path,
+};
+
+pub fn set_faults(n: usize) {
+	parity_db::set_number_of_allowed_io_operations(n);
+}
+
+pub fn disarm() {
+	set_faults(usize::MAX);
+}
+
+pub fn remaining_faults() -> usize {
+	parity_db::verif_remaining_io_operations()
+}
+
+/// Copies one file preserving holes (SEEK_DATA / SEEK_HOLE).
+pub fn copy_file_sparse(src: &Path, dst: &Path) -> io::Result<()> {
+	let s = File::open(src)?;
+	let len = s.metadata()?.len();
+	let d = File::create(dst)?;
+	d.set_len(len)?;
+	let fd = s.as_raw_fd();
+	let mut off: i64 = 0;
+	let mut buf = vec![0u8; 1 << 16];
+	while (off as u64) < len {
+		let data = unsafe { libc::lseek(fd, off, libc::SEEK_DATA) };
+		if data < 0 {
+			break // ENXIO: no more data
+		}
+		let mut hole = unsafe { libc::lseek(fd, data, libc::SEEK_HOLE) };
+		if hole < 0 {
+			hole = len as i64;
+		}
+		let mut p = data as u64;
+		while p < hole as u64 {
+			let n = ((hole as u64 - p) as usize).min(buf.len());
+			let r = s.read_at(&mut buf[..n], p)?;
+			if r == 0 {
+				break
+			}
+			// skip all-zero blocks to keep the copy sparse
+			if buf[..r].iter().any(|b| *b != 0) {
+				d.write_all_at(&buf[..r], p)?;
+			}
+			p += r as u64;
+		}
+		off = hole;
+	}
+	Ok(())
+}
+
+/// Copies a database directory (the `lock` file is skipped).
+pub fn copy_dir(src: &Path, dst: &Path) -> io::Result<()> {
+	let _ = std::fs::remove_dir_all(dst);
+	std::fs::create_dir_all(dst)?;
+	for e in std::fs::read_dir(src)? {
+		let e = e?;
+		let name = e.file_name();
+		if name == "lock" {
+			continue
+		}
+		if e.file_type()?.is_file() {
+			copy_file_sparse(&e.path(), &dst.join(&name))?;
+		}
+	}
+	Ok(())
+}
+
+pub fn file_sizes(dir: &Path) -> BTreeMap<String, u64> {
+	let mut m = BTreeMap::new();
+	if let Ok(rd) = std::fs::read_dir(dir) {
+		for e in rd.flatten() {
+			if let Ok(md) = e.metadata() {
+				if md.is_file() {
+					m.insert(e.file_name().to_string_lossy().to_string(), md.len());
+				}
+			}
+		}
+	}
+	m
+}
+
+pub fn is_log(name: &str) -> bool {
+	name.starts_with("log") && name[3..].parse::<u32>().is_ok()
+}
+
+/// Snapshot of names, lengths and content hashes of a directory (`lock` and `stats.txt`
+/// ignored) - used to assert that a call modified nothing.
+pub fn dir_snapshot(dir: &Path) -> BTreeMap<String, (u64, u64)> {
+	let mut m = BTreeMap::new();
+	if let Ok(rd) = std::fs::read_dir(dir) {
+		for e in rd.flatten() {
+			let name = e.file_name().to_string_lossy().to_string();
+			if name == "lock" {
+				continue
+			}
+			if let Ok(md) = e.metadata() {
+				if md.is_file() {
+					let tmp = std::env::temp_dir();
+					let _ = tmp;
+					let h = hash_file_sparse(&e.path()).unwrap_or(0);
+					m.insert(name, (md.len(), h));
+				} else {
+					m.insert(name, (u64::MAX, 0));
+				}
+			}
+		}
+	}
+	m
+}
+
+pub fn hash_file_sparse(p: &Path) -> io::Result<u64> {
+	let s = File::open(p)?;
+	let len = s.metadata()?.len();
+	let fd = s.as_raw_fd();
+	let mut h = 0x1234u64;
+	let mut off: i64 = 0;
+	let mut buf = vec![0u8; 1 << 16];
+	while (off as u64) < len {
+		let data = unsafe { libc::lseek(fd, off, libc::SEEK_DATA) };
+		if data < 0 {
+			break
+		}
+		let mut hole = unsafe { libc::lseek(fd, data, libc::SEEK_HOLE) };
+		if hole < 0 {
+			hole = len as i64;
+		}
+		let mut p = data as u64;
+		while p < hole as u64 {
+			let n = ((hole as u64 - p) as usize).min(buf.len());
+			let r = s.read_at(&mut buf[..n], p)?;
+			if r == 0 {
+				break
+			}
+			// hash 4 KiB blocks, skipping zero blocks so that holes and zero data agree
+			for (i, blk) in buf[..r].chunks(4096).enumerate() {
+				if blk.iter().any(|b| *b != 0) {
+					h = splitmix(h ^ h64(blk) ^ (p + i as u64 * 4096));
+				}
+			}
+			p += r as u64;
+		}
+		off = hole;
+	}
+	Ok(h)
+}
+
+// ---------------------------------------------------------------------------------------
+// Observations
+
+#[derive(Clone, Debug, PartialEq, Eq, Serialize, Deserialize)]
+pub enum ColObs {
+	/// key id -> (len, hash)
+	Map(BTreeMap<u16, (u32, u64)>),
+	/// present key ids with their count (hash columns, through value iteration) or 1 (btree
+	/// columns, where the count is not observable)
+	Rc(BTreeMap<u16, u64>),
+	/// root id -> canonical hash of the tree
+	Multi(BTreeMap<u16, u64>),
+}
+
+pub type Obs = Vec<ColObs>;
+
+fn canon_hash(c: &CanonTree) -> u64 {
+	let mut h = splitmix(c.data ^ (c.len as u64) << 32 ^ c.children.len() as u64);
+	for ch in &c.children {
+		h = splitmix(h ^ canon_hash(ch));
+	}
+	h
+}
+
+pub fn expected_obs(it: &Interp, model: &Model) -> Obs {
+	let mut out = Vec::new();
+	for (col, m) in model.cols.iter().enumerate() {
+		out.push(match m {
+			ColModel::Map(m) => ColObs::Map(
+				it.universe[col]
+					.iter()
+					.filter_map(|id| m.get(id).map(|v| (*id, (v.len() as u32, h64(v)))))
+					.collect(),
+			),
+			ColModel::Rc(m) => {
+				let hash = it.cfg.cols[col].kind == Kind::Hash;
+				ColObs::Rc(
+					it.universe[col]
+						.iter()
+						.filter_map(|id| m.get(id).map(|c| (*id, if hash { *c } else { 1 })))
+						.collect(),
+				)
+			},
+			ColModel::Multi(mm) => {
+				let mut t = BTreeMap::new();
+				for id in it.universe[col].iter() {
+					if mm.roots.contains_key(id) {
+						let tmp = Model { cols: vec![ColModel::Multi(mm.clone())] };
+						let _ = tmp;
+						t.insert(*id, canon_hash(&canon_of(mm, *id)));
+					}
+				}
+				ColObs::Multi(t)
+			},
+		});
+	}
+	out
+}
+
+fn canon_of(m: &MultiModel, root: u16) -> CanonTree {
+	let (_, data, children) = m.roots.get(&root).unwrap();
+	fn node(m: &MultiModel, n: NodeId) -> CanonTree {
+		let nd = &m.nodes[n];
+		CanonTree { data: h64(&nd.data), len: nd.data.len(), children: nd.children.iter().map(|c| node(m, *c)).collect() }
+	}
+	CanonTree { data: h64(data), len: data.len(), children: children.iter().map(|c| node(m, *c)).collect() }
+}
+
+/// Observes the logical state of the open database of `it` over its universe.
+pub fn observe(it: &Interp) -> Res<Obs> {
+	let mut out = Vec::new();
+	for (col, ccfg) in it.cfg.cols.iter().enumerate() {
+		let col8 = col as u8;
+		out.push(match ccfg.kind {
+			Kind::Multi => {
+				let mut t = BTreeMap::new();
+				for id in it.universe[col].iter() {
+					match it.read_tree(col8, *id) {
+						Ok(Some((c, _))) => {
+							t.insert(*id, canon_hash(&c));
+						},
+						Ok(None) => {},
+						Err(f) => {
+							// a structurally broken tree is an observation that matches no model
+							return Err(Failure::new(format!("recovered-tree-broken:{}", f.sig), f.detail))
+						},
+					}
+				}
+				ColObs::Multi(t)
+			},
+			_ if ccfg.rc => {
+				let mut s = BTreeMap::new();
+				for id in it.universe[col].iter() {
+					if let Some(v) = it.get(col8, &ccfg.key(*id))? {
+						if v != ccfg.pre_value(*id) {
+							fail!("recovered-value-corrupt", "col {col} key id {id}: value differs from f(key): {}", brief(Some(&v)))
+						}
+						s.insert(*id, 1);
+					}
+				}
+				if ccfg.kind == Kind::Hash && it.queue_empty() {
+					let counts = observe_rc_counts(it, col8)?;
+					let present: BTreeSet<u16> = s.keys().cloned().collect();
+					let iterated: BTreeSet<u16> = counts.keys().cloned().filter(|k| it.universe[col].contains(k)).collect();
+					if present != iterated || counts.len() != iterated.len() {
+						fail!("value-iteration-disagrees-with-get", "col {col}: keys readable {:?} but value iteration reports {:?}", present, counts)
+					}
+					s = counts;
+				}
+				ColObs::Rc(s)
+			},
+			_ => {
+				let mut m = BTreeMap::new();
+				for id in it.universe[col].iter() {
+					if let Some(v) = it.get(col8, &ccfg.key(*id))? {
+						m.insert(*id, (v.len() as u32, h64(&v)));
+					}
+				}
+				ColObs::Map(m)
+			},
+		});
+	}
+	Ok(out)
+}
+
+/// Reference counts of a drained hash rc column through value iteration: key id -> count.
+pub fn observe_rc_counts(it: &Interp, col: u8) -> Res<BTreeMap<u16, u64>> {
+	let ccfg = &it.cfg.cols[col as usize];
+	let mut out = BTreeMap::new();
+	let mut bad: Option<String> = None;
+	let r = it.db().iter_column_while(col, |st| {
+		match ccfg.pre_value_owner(&st.value) {
+			Some(id) => {
+				if out.insert(id, st.rc as u64).is_some() {
+					bad = Some(format!("value of key id {id} reported twice by iteration"));
+				}
+			},
+			None => bad = Some(format!("iteration reported a value that belongs to no key: {}", brief(Some(&st.value)))),
+		}
+		true
+	});
+	if let Err(e) = r {
+		fail!(format!("iter_column-failed:{}", err_sig(&e)), "iter_column_while failed: {e}")
+	}
+	if let Some(b) = bad {
+		fail!("value-iteration-wrong", "col {col}: {b}")
+	}
+	Ok(out)
+}
+
+// ---------------------------------------------------------------------------------------
+// Stop points
+
+#[derive(Clone, Debug, Serialize, Deserialize, PartialEq, Eq, Hash)]
+pub struct StopPoint {
+	/// index of the op in which the fault is injected
+	pub op: usize,
+	/// the op fails at its n-th file operation (n >= number of operations: boundary after the op)
+	pub n: usize,
+	/// cut of the unsynced log tail: per-65536 fraction of the unsynced bytes kept (None: keep all)
+	pub cut: Option<u16>,
+	/// crash again inside recovery at this file operation of Db::open (recursively)
+	pub recover_n: Vec<usize>,
+}
+
+pub struct ImageInfo {
+	pub faulted: bool,
+	pub committed: usize,
+	pub synced: usize,
+	pub cleaned: usize,
+	pub had_log: bool,
+	pub cut_inside: bool,
+	pub prefix: Vec<Model>,
+	pub addr: std::collections::HashMap<(u8, NodeId), u64>,
+	pub universe: Vec<BTreeSet<u16>>,
+	pub labels: BTreeSet<&'static str>,
+}
+
+/// Tracks, per log file, how many of its bytes were covered by the last successful sync.
+#[derive(Default, Clone)]
+pub struct SyncTrack {
+	pub synced: BTreeMap<String, u64>,
+}
+
+impl SyncTrack {
+	pub fn after_op(&mut self, dir: &Path, was_flush_ok: bool) {
+		let sizes = file_sizes(dir);
+		self.synced.retain(|k, _| sizes.contains_key(k));
+		for (name, sz) in sizes {
+			if !is_log(&name) {
+				continue
+			}
+			let e = self.synced.entry(name).or_insert(0);
+			if was_flush_ok || sz < *e {
+				*e = sz;
+			}
+		}
+	}
+}
+
+/// Runs the scenario up to the stop point and leaves the crash image in `img`.
+/// `pre_ops` = the ops executed completely before the faulted op.
+pub fn make_image(sc: &Scenario, sp: &StopPoint, work: &Path, img: &Path) -> Res<ImageInfo> {
+	let _ = std::fs::remove_dir_all(work);
+	std::fs::create_dir_all(work).map_err(|e| Failure::new("harness-io", e.to_string()))?;
+	let mut it = Interp::new(&sc.cfg, work, Interp::universe_of(sc));
+	it.keep_prefix = true;
+	it.check_every_op = false;
+	it.open()?;
+	it.sync_track = Some(SyncTrack::default());
+	for op in sc.ops.iter().take(sp.op) {
+		it.step(op)?;
+	}
+	let mut faulted = false;
+	if sp.op < sc.ops.len() {
+		let op = &sc.ops[sp.op];
+		it.fault_armed = true;
+		set_faults(sp.n);
+		let r = it.step(op);
+		let left = remaining_faults();
+		set_faults(0);
+		match r {
+			Ok(StepOut::Faulted(_)) => faulted = true,
+			Ok(_) => {
+				// an op can swallow the injected error internally; treat "budget exhausted" as faulted
+				faulted = left == 0;
+			},
+			Err(f) => {
+				disarm();
+				return Err(f)
+			},
+		}
+	}
+	let mut track = it.sync_track.clone().unwrap_or_default();
+	// files that shrank or vanished in the interrupted op
+	track.after_op(work, false);
+	// the crash image: the directory as it is right now
+	copy_dir(work, img).map_err(|e| Failure::new("harness-io", format!("copy: {e}")))?;
+	// cut the unsynced tail of log files
+	let mut had_log = false;
+	let mut cut_inside = false;
+	for (name, sz) in file_sizes(img) {
+		if !is_log(&name) {
+			continue
+		}
+		if sz > 0 {
+			had_log = true;
+		}
+		let synced = track.synced.get(&name).cloned().unwrap_or(0).min(sz);
+		// a stop point inside Reopen may lie after a log sync performed by the shutdown
+		// sequence itself, which the tracker cannot see: never cut there
+		let in_reopen = sp.op < sc.ops.len() && matches!(sc.ops[sp.op], Op::Reopen);
+		if let (Some(cut), false) = (sp.cut, in_reopen) {
+			if sz > synced {
+				let keep = synced + (((sz - synced) as u128 * cut as u128) >> 16) as u64;
+				if keep < sz {
+					let f = std::fs::OpenOptions::new().write(true).open(img.join(&name)).map_err(|e| Failure::new("harness-io", e.to_string()))?;
+					f.set_len(keep).map_err(|e| Failure::new("harness-io", e.to_string()))?;
+					if keep > synced {
+						cut_inside = true;
+					}
+				}
+			}
+		}
+	}
+	let info = ImageInfo {
+		faulted,
+		committed: it.committed,
+		synced: it.stages.synced,
+		cleaned: it.stages.cleaned,
+		had_log,
+		cut_inside,
+		prefix: it.prefix.clone(),
+		addr: it.addr.clone(),
+		universe: it.universe.clone(),
+		labels: it.labels.clone(),
+	};
+	// drop the live handle with the injector refusing everything: the original directory is
+	// irrelevant from here on
+	set_faults(0);
+	drop(it);
+	disarm();
+	Ok(info)
+}
+
+pub struct Recovered {
+	pub interp: Interp,
+	pub prefix_index: usize,
+	/// every prefix index (>= lower bound) whose state equals the observation, descending
+	pub candidates: Vec<usize>,
+	pub recovery_crashes: usize,
+	pub dir: std::path::PathBuf,
+}
+
+/// Opens a crash image and checks the prefix oracle: `lower <= p <= committed`.
+pub fn recover_and_check(sc: &Scenario, info: &ImageInfo, sp: &StopPoint, img: &Path, scratch: &Path, lower: usize) -> Res<Recovered> {
+	let mut cur = img.to_path_buf();
+	let mut crashes = 0;
+	// crashes inside recovery
+	for (depth, n) in sp.recover_n.iter().enumerate() {
+		let mut it = Interp::new(&sc.cfg, &cur, info.universe.clone());
+		it.fault_armed = true;
+		set_faults(*n);
+		let r = it.open();
+		set_faults(0);
+		let opened = matches!(r, Ok(StepOut::Done));
+		let next = scratch.join(format!("rec{depth}"));
+		let cp = copy_dir(&cur, &next);
+		drop(it);
+		disarm();
+		if let Err(f) = r {
+			return Err(f)
+		}
+		cp.map_err(|e| Failure::new("harness-io", format!("copy: {e}")))?;
+		if opened {
+			// the budget was larger than the number of operations of open: no crash happened
+			let _ = std::fs::remove_dir_all(&next);
+			break
+		}
+		crashes += 1;
+		cur = next;
+	}
+	let mut it = Interp::new(&sc.cfg, &cur, info.universe.clone());
+	it.check_every_op = true;
+	match it.open() {
+		Ok(_) => {},
+		Err(f) => return Err(Failure::new(format!("recovery-{}", f.sig), format!("opening the crash image failed: {}", f.detail))),
+	}
+	let obs = observe(&it)?;
+	let upper = info.committed.min(info.prefix.len() - 1);
+	let mut candidates = Vec::new();
+	let mut any_match = None;
+	for p in (0..=upper).rev() {
+		if expected_obs(&it, &info.prefix[p]) == obs {
+			if any_match.is_none() {
+				any_match = Some(p);
+			}
+			if p >= lower {
+				candidates.push(p);
+			}
+		}
+	}
+	let p = match (candidates.first(), any_match) {
+		(Some(p), _) => *p,
+		(None, Some(p)) => fail!(
+			"recovered-state-too-old",
+			"recovered state equals prefix {p} but {lower} transactions had been synced before the crash (committed {})",
+			info.committed
+		),
+		(None, None) => fail!(
+			"recovered-state-not-a-prefix",
+			"recovered state matches no prefix of the {} committed transactions: observed {}",
+			info.committed,
+			obs_brief(&obs)
+		),
+	};
+	adopt_prefix(&mut it, info, p);
+	Ok(Recovered { interp: it, prefix_index: p, candidates, recovery_crashes: crashes, dir: cur })
+}
+
+/// Makes the interpreter continue from prefix state `p`.
+pub fn adopt_prefix(it: &mut Interp, info: &ImageInfo, p: usize) {
+	it.model = info.prefix[p].clone();
+	it.committed = p;
+	it.addr.clear();
+	// node addresses known for nodes that exist in that prefix
+	for ((col, n), a) in info.addr.iter() {
+		if let ColModel::Multi(m) = &it.model.cols[*col as usize] {
+			if *n < m.nodes.len() {
+				it.addr.insert((*col, *n), *a);
+			}
+		}
+	}
+	it.stages = Stages { cleaned: p, synced: p, logged: p, ..Default::default() };
+}
+
+pub fn obs_brief(o: &Obs) -> String {
+	let mut s = String::new();
+	for (i, c) in o.iter().enumerate() {
+		match c {
+			ColObs::Map(m) => s.push_str(&format!("col{i}:{{{}}} ", m.iter().map(|(k, (l, h))| format!("{k}:len{l}/h{:04x}", *h as u16)).collect::<Vec<_>>().join(","))),
+			ColObs::Rc(m) => s.push_str(&format!("col{i}:rc{:?} ", m)),
+			ColObs::Multi(m) => s.push_str(&format!("col{i}:trees{:?} ", m.keys().collect::<Vec<_>>())),
+		}
+	}
+	s
+}
